@@ -34,6 +34,9 @@ VARIABLES t,       \* line
 tvars == <<vars, t, l, lastT, ok>>
 
 IsRun(tt) == tt <= Len(Rec) /\ Rec[tt].ev = "run"
+(* a whole stepwise OVERLAPPING search recorded as one run: only the rules on the *)
+(* events apply (ACOverlap is bound through call histories, see TraceCalls)       *)
+IsOverlap(tt) == IsRun(tt) /\ "mode" \in DOMAIN Rec[tt] /\ Rec[tt].mode = "overlap"
 E == Rec[t]
 Ops == IF IsRun(t) THEN E.ops ELSE <<>>
 
@@ -50,14 +53,14 @@ CfgOf(tt) ==
 StartPc(c) == IF c.s > c.e THEN "done" ELSE "start"      \* Begin (input.is_done()) inlined
 
 Load(tt) ==
-    /\ t' = tt /\ l' = 1 /\ lastT' = -1 /\ ok' = TRUE
+    /\ t' = tt /\ l' = 1 /\ lastT' = -1 /\ ok' = ~IsOverlap(tt)
     /\ cfg' = CfgOf(tt)
     /\ pc' = StartPc(CfgOf(tt)) /\ sid' = Root /\ at' = CfgOf(tt).s /\ mat' = None /\ res' = None
     /\ trans' = 0 /\ fails' = 0
 
 TInit ==
     /\ t \in 1..(IF Len(Rec) < Stripes THEN Len(Rec) ELSE Stripes)
-    /\ l = 1 /\ lastT = -1 /\ ok = TRUE
+    /\ l = 1 /\ lastT = -1 /\ ok = ~IsOverlap(t)
     /\ cfg = CfgOf(t)
     /\ pc = StartPc(CfgOf(t)) /\ sid = Root /\ at = CfgOf(t).s /\ mat = None /\ res = None
     /\ trans = 0 /\ fails = 0
@@ -122,7 +125,10 @@ Consume ==
                                            \o pc \o ", at = " \o ToString(at))
                ELSE TRUE
             /\ ok' = FALSE
-            /\ lastT' = (IF Ops[l][1] = "T" THEN Ops[l][2] ELSE lastT)
+            \* overlapping runs: ["C"] starts a call, ["N"] marks a call that reported nothing; once
+            \* the search has reported nothing, each further call is a search of its own
+            /\ lastT' = (IF Ops[l][1] = "T" THEN Ops[l][2]
+                         ELSE IF Ops[l][1] = "C" /\ l > 1 /\ Ops[l - 1][1] = "N" THEN -1 ELSE lastT)
             /\ UNCHANGED vars
     /\ UNCHANGED t
 
@@ -140,12 +146,15 @@ ResultOK ==
     THEN EarliestOK(cfg.pats, cfg.kind, cfg.hay, cfg.s, cfg.e, cfg.ci, cfg.an, r)
     ELSE r = FindOracle(cfg.pats, cfg.kind, cfg.hay, cfg.s, cfg.e, cfg.ci, cfg.an)
 
-NumT == Len(SelectSeq(Ops, LAMBDA o : o[1] = "T"))
+FirstN == IF \E k \in 1..Len(Ops) : Ops[k][1] = "N"
+          THEN CHOOSE k \in 1..Len(Ops) : Ops[k][1] = "N" /\ \A j \in 1..(k - 1) : Ops[j][1] # "N"
+          ELSE Len(Ops) + 1
+NumT == Len(SelectSeq(SubSeq(Ops, 1, FirstN - 1), LAMBDA o : o[1] = "T"))
 
 TFinish ==
     /\ IsRun(t) /\ l = Len(Ops) + 1
     /\ IF ok THEN pc # "start" /\ ~ENABLED WindStep ELSE TRUE
-    /\ IF E.out = "ok" /\ ResultOK THEN TRUE
+    /\ IF E.out = "ok" /\ (IsOverlap(t) \/ ResultOK) THEN TRUE
        ELSE Report("REJECT", "result " \o ToString(E.res) \o " (" \o E.out \o ") differs from the oracle")
     /\ IF NumT <= (IF cfg.s <= cfg.e THEN cfg.e - cfg.s ELSE 0) THEN TRUE
        ELSE Report("REJECT", "more transitions than bytes in the span")
